@@ -30,6 +30,14 @@ TP = 'task_pool'
 
 
 def check(c):
+    # the queued flag says "sits in a queue of the queue manager": it is
+    # set through state_reset by the queueing / release code only -- never
+    # copied from another proxy (reload builds new, empty queues and relies
+    # on successors starting un-queued, so that they are pushed again)
+    c.who_writes('C03.queued-flag', 'is_queued', {
+        ('task_state:TaskState.__init__', 'assign'),
+        ('task_state:TaskState.reset', 'assign'),
+    }, floor=2)
     from rules._shared import pool_cache_rules
     pool_cache_rules(c, 'C03.pool-cache')
     # ---- auto shutdown
@@ -261,6 +269,11 @@ def check(c):
 
 
 VARIANTS = [
+    ('reload-keeps-queued-flag', 'cylc/flow/task_proxy.py',
+     '        reload_successor.state.is_held = self.state.is_held\n',
+     '        reload_successor.state.is_held = self.state.is_held\n'
+     '        reload_successor.state.is_queued = self.state.is_queued\n',
+     'C03.queued-flag'),
     ('flag-after-offset-scan', 'cylc/flow/task_pool.py',
      '''        self.active_tasks[itask.point][itask.identity] = itask
         self.active_tasks_changed = True
